@@ -74,10 +74,11 @@ func payloadMarkers(c *Ctx, pa *provAnalysis, fr *Frame) map[string]bool {
 }
 
 func checkC01(c *Ctx, r *Report) {
-	r.Rules = []string{"D1 payload dispatch matrix (prepared type x packager)", "F1 header field provenance per entry class", "F1-body entry bodies read from the source and copied verbatim", "F1-only every payload member is written for a contents entry", "F2 default mode is stat &^ umask, explicit modes verbatim", "D2 directory / owner defaults", "parents for every entry (shared with C05)", "F1-link-verbatim symlink targets are plain reads of the entry's source", "plan-W1 plan entries and their file info are fresh copies (imported from C11)", "plan-G-*/O5-parents-clean path discipline of the planner (imported from C05)", "F2-perm a directory's mode taken from disk is reduced to its permission bits", "F2-stat default file info is taken with os.Stat (through links)", "fresh-T6-no-carried-state nothing on the packaging paths keeps results in package-level state (rule of C07)", "plan-K2c an occupant fails or is replaced (imported from C05)"}
+	r.Rules = []string{"D1 payload dispatch matrix (prepared type x packager)", "F1 header field provenance per entry class", "F1-body entry bodies read from the source and copied verbatim", "F1-only every payload member is written for a contents entry", "F2 default mode is stat &^ umask, explicit modes verbatim", "D2 directory / owner defaults", "parents for every entry (shared with C05)", "F1-link-verbatim symlink targets are plain reads of the entry's source", "plan-W1 plan entries and their file info are fresh copies (imported from C11)", "plan-G-*/O5-parents-clean path discipline of the planner (imported from C05)", "F2-perm a directory's mode taken from disk is reduced to its permission bits", "F2-stat default file info is taken with os.Stat (through links)", "fresh-T6-no-carried-state nothing on the packaging paths keeps results in package-level state (rule of C07)", "plan-K2c an occupant fails or is replaced (imported from C05)", "F2-symlink-nostat a symlink entry's source is not stat'ed", "plan-K6-sorted-search (imported from C05)"}
 	r.Explanation = "Structural necessary conditions of payload fidelity. (D1) each packager's payload writer — the function that loops over the prepared contents, branches on the entry type and writes archive headers named after destinations — is abstractly evaluated for every prepared entry type; the set of live mechanisms (directory header, link header, read of the entry's source, header written/added) is compared with the table transcribed from the statement: directories -> directory entry without reading a source (implied directories skipped in rpm only), symlinks -> link entry without reading a source, file and config types (and rpm's doc/licence/readme) -> source opened and an entry written, ghost -> header only, the deb changelog -> a generated member. (F1) for every tar header / rpm file record created for payload entries, the definitions that reach the write (flow-sensitive) must feed name from the destination, mode from the entry's mode (an explicit store over tar.FileInfoHeader's permission-only mode), owner from owner and group from group (not swapped), modification time from the entry's mtime, link target from the entry's source. (F1-body) every file opened or read under a path derived from a contents entry on the payload writer's call graph is named by the entry's source alone, and the bytes read reach an archive write, a copy into the archive or the rpm file body through conversions only (no slicing, limiting or rewriting step). (F1-only) every tar header write / rpm AddFile on the payload writer's call graph lies in the body of a loop that has loaded an element of the prepared contents, or in a function reached only from such loop bodies: the writer adds no member of its own. (F2) in the planner the mode taken from disk is stat-mode AND-NOT umask and is stored only when no mode is set. (D2) directory mode defaults to 0755 and owner/group to root. Equality of the bytes on disk at packaging time with what a later reader sees, glob results and concrete mode values are not decided."
 	r.Explanation += " (F1-link-verbatim) the target of every symlink member is a plain read of the entry's source. Imported: the plan's entries and their file info are fresh copies (C11 W1), and the planner's path discipline (C05 G-base, G-prefix, G-cutset, G-rooted, O5-parents-clean)."
 	r.Explanation += " (F2-perm) where the planner marks an entry a directory, the mode it takes from disk is <stat mode>.Perm() &^ umask. (F2-stat) the FileInfo whose mode/size/time become an entry's defaults comes from os.Stat, not os.Lstat. (fresh-T6) rule of C07 applied to payload selection: no package-level write on packaging paths (a memoised glob result would omit files added later)."
+	r.Explanation += " (F2-symlink-nostat) the function that fills an entry's defaults from os.Stat(source), evaluated for a symlink entry, does not reach the stat (fields of a struct the function has just allocated are modelled)."
 	r.Assumptions = []string{
 		"io.Copy / tar.Writer.Write / rpmpack copy the bytes they are handed",
 		"tar.FileInfoHeader(fi, link) sets ModTime from fi.ModTime(), Size from fi.Size() and Mode from fi.Mode().Perm() (hand model)",
@@ -151,7 +152,7 @@ func checkC01(c *Ctx, r *Report) {
 	checkC05(c, tmp5)
 	n5 := 0
 	for _, o := range tmp5.Obls {
-		if o.Rule == "G-base" || o.Rule == "G-prefix" || o.Rule == "G-cutset" || o.Rule == "G-rooted" || o.Rule == "O5-parents-clean" || o.Rule == "O5-parents" || o.Rule == "K2" || o.Rule == "K2b" || o.Rule == "K2c" || o.Rule == "K3" || (o.Rule == "D1+D5" && (strings.Contains(o.Construct, `tag=""`))) {
+		if o.Rule == "G-base" || o.Rule == "G-prefix" || o.Rule == "G-cutset" || o.Rule == "G-rooted" || o.Rule == "O5-parents-clean" || o.Rule == "O5-parents" || o.Rule == "K2" || o.Rule == "K2b" || o.Rule == "K2c" || o.Rule == "K6-sorted-search" || o.Rule == "K3" || (o.Rule == "D1+D5" && (strings.Contains(o.Construct, `tag=""`))) {
 			o.Rule = "plan-" + o.Rule
 			r.Obls = append(r.Obls, o)
 			n5++
@@ -518,6 +519,36 @@ func checkPlannerDefaults(c *Ctx, r *Report) {
 		})
 	}
 	r.Floor("F2", modeStores, 3)
+	// the source of a symlink entry is the link's target on the installed
+	// system; what that path names on the build host (a directory, a big file)
+	// must not leak into the entry: evaluated for a symlink entry, the function
+	// that fills an entry's defaults from os.Stat(source) does not stat
+	nStat := 0
+	for _, fn := range sortedFuncs(c, c.Reach(prep)) {
+		if c.funcPkgPath(fn) != filesPath {
+			continue
+		}
+		var stat *ssa.Call
+		forEachInstr(fn, func(in ssa.Instruction) {
+			call, ok := in.(*ssa.Call)
+			if !ok || len(call.Call.Args) == 0 {
+				return
+			}
+			if o := calleeObj(call); o != nil && (qualifiedName(o) == "os.Stat" || qualifiedName(o) == "os.Lstat") && pa.Of(call.Call.Args[0]).has("Content.Source") {
+				stat = call
+			}
+		})
+		if stat == nil {
+			continue
+		}
+		nStat++
+		ev := cellEvaluator(c, typeSymlink, nil)
+		fr := ev.Explore(fn, make([]AV, len(fn.Params)))
+		live := fr == nil || fr.Live(stat.Block())
+		r.Check(!live, "F2-symlink-nostat", "a symlink entry's source is not stat'ed in "+c.funcKey(fn), c.instrPos(stat),
+			"for an entry of type symlink the stat of its source is reachable: the source is the link's target, so the mode, size and kind of whatever that path names on the build host end up in the entry (deb then ships a directory instead of the link when the target is a directory there)")
+	}
+	r.Floor("F2-symlink-nostat", nStat, 1)
 }
 
 func isBinOp(v ssa.Value) bool { _, ok := v.(*ssa.BinOp); return ok }
